@@ -1,0 +1,155 @@
+//! Read-only entry points for the external verification harness.
+//!
+//! Compiled only with the cargo feature `verif-hooks`; nothing in the
+//! formatter itself calls into this module.
+
+use std::cmp::Ordering;
+
+use crate::config::{Config, EmitMode, FileName};
+use crate::emitter::FormattedFile;
+use crate::rustfmt_diff::{DiffLine, ModifiedLines};
+use crate::{ErrorKind, FormatReport, create_emitter};
+
+/// One line-level diagnostic of a report.
+#[derive(Debug, Clone, PartialEq, Eq, PartialOrd, Ord)]
+pub struct ReportEntry {
+    pub file: String,
+    pub line: usize,
+    /// `LineOverflow`, `TrailingWhitespace`, `LostComment`, `DeprecatedAttr`, `BadAttr`, or the
+    /// `Display` text for the remaining kinds.
+    pub kind: String,
+    /// `(found, max)` for `LineOverflow`.
+    pub widths: Option<(usize, usize)>,
+    pub is_comment: bool,
+    pub is_string: bool,
+}
+
+/// All `(file, line, kind)` entries of `report`, sorted.
+pub fn report_entries(report: &FormatReport) -> Vec<ReportEntry> {
+    let internal = report.internal.borrow();
+    let mut out = Vec::new();
+    for (file, errors) in internal.0.iter() {
+        for e in errors {
+            let (kind, widths) = match e.kind {
+                ErrorKind::LineOverflow(found, max) => {
+                    ("LineOverflow".to_owned(), Some((found, max)))
+                }
+                ErrorKind::TrailingWhitespace => ("TrailingWhitespace".to_owned(), None),
+                ErrorKind::LostComment => ("LostComment".to_owned(), None),
+                ErrorKind::DeprecatedAttr => ("DeprecatedAttr".to_owned(), None),
+                ErrorKind::BadAttr => ("BadAttr".to_owned(), None),
+                ref other => (other.to_string(), None),
+            };
+            out.push(ReportEntry {
+                file: file.to_string(),
+                line: e.line,
+                kind,
+                widths,
+                is_comment: e.is_comment_for_verif(),
+                is_string: e.is_string_for_verif(),
+            });
+        }
+    }
+    out.sort();
+    out
+}
+
+/// The skipped (non formatted) output line ranges recorded in `report`.
+pub fn non_formatted_ranges(report: &FormatReport) -> Vec<(usize, usize)> {
+    report.non_formatted_ranges.clone()
+}
+
+/// Summary flags of `report` in declaration order: operational, parsing, formatting,
+/// macro_format_failure, check, diff, unformatted_code.
+pub fn report_flags(report: &FormatReport) -> [bool; 7] {
+    let internal = report.internal.borrow();
+    let e = &internal.1;
+    [
+        e.has_operational_errors,
+        e.has_parsing_errors,
+        e.has_formatting_errors,
+        e.has_macro_format_failure,
+        e.has_check_errors,
+        e.has_diff,
+        e.has_unformatted_code_errors,
+    ]
+}
+
+/// The comparison used for the version-sort of style edition 2024.
+pub fn version_sort(a: &str, b: &str) -> Ordering {
+    crate::sort::version_sort(a, b)
+}
+
+/// Mirror of the crate-private `DiffLine`.
+#[derive(Debug, Clone, PartialEq, Eq)]
+pub enum HookDiffLine {
+    Context(String),
+    Expected(String),
+    Resulting(String),
+}
+
+/// Mirror of the crate-private `Mismatch`.
+#[derive(Debug, Clone, PartialEq, Eq)]
+pub struct HookMismatch {
+    pub line_number: u32,
+    pub line_number_orig: u32,
+    pub lines: Vec<HookDiffLine>,
+}
+
+/// `rustfmt_diff::make_diff` with its result copied into public mirror types.
+pub fn make_diff(expected: &str, actual: &str, context_size: usize) -> Vec<HookMismatch> {
+    crate::rustfmt_diff::make_diff(expected, actual, context_size)
+        .into_iter()
+        .map(|m| HookMismatch {
+            line_number: m.line_number,
+            line_number_orig: m.line_number_orig,
+            lines: m
+                .lines
+                .into_iter()
+                .map(|l| match l {
+                    DiffLine::Context(s) => HookDiffLine::Context(s),
+                    DiffLine::Expected(s) => HookDiffLine::Expected(s),
+                    DiffLine::Resulting(s) => HookDiffLine::Resulting(s),
+                })
+                .collect(),
+        })
+        .collect()
+}
+
+/// The modified-lines report for a pair of texts (what `ModifiedLinesEmitter` prints).
+pub fn modified_lines(original: &str, formatted: &str) -> ModifiedLines {
+    ModifiedLines::from(crate::rustfmt_diff::make_diff(original, formatted, 0))
+}
+
+/// Emits one `(name, original, formatted)` pair through the emitter selected by `mode`
+/// (header, file, footer) and returns the bytes written to the emitter's output.
+/// Only the report-style emitters are accepted; the file-writing ones touch the disk.
+pub fn emit_pair(
+    mode: EmitMode,
+    name: &str,
+    original: &str,
+    formatted: &str,
+) -> Result<(Vec<u8>, bool), String> {
+    match mode {
+        EmitMode::Json | EmitMode::Checkstyle | EmitMode::ModifiedLines | EmitMode::Stdout => {}
+        _ => return Err(format!("emit mode {mode:?} is not supported by emit_pair")),
+    }
+    let mut config = Config::default();
+    config.set().emit_mode(mode);
+    let mut emitter = create_emitter(&config);
+    let mut out: Vec<u8> = Vec::new();
+    let filename = FileName::Real(std::path::PathBuf::from(name));
+    emitter.emit_header(&mut out).map_err(|e| e.to_string())?;
+    let result = emitter
+        .emit_formatted_file(
+            &mut out,
+            FormattedFile {
+                filename: &filename,
+                original_text: original,
+                formatted_text: formatted,
+            },
+        )
+        .map_err(|e| e.to_string())?;
+    emitter.emit_footer(&mut out).map_err(|e| e.to_string())?;
+    Ok((out, result.has_diff))
+}
